@@ -74,9 +74,40 @@ def reference_filters():
 
 
 # ---------------------------------------------------------------------------------------------------------------- coefficient functions
+def _flat(v):
+    """a display of scalars and vectors -> the vector of their elements (np.hstack / np.concatenate / np.r_ of scalar coefficients)"""
+    out = []
+    for x in v:
+        if isinstance(x, tuple):
+            out.extend(_flat(x))
+        else:
+            out.append(x)
+    return tuple(out)
+
+
+def _coef_sub(node, ev):
+    """np.r_[c0, c1, c2] in a coefficient function (every quantity there is a scalar): the vector of the items"""
+    if dotted(node.value) in ("np.r_", "numpy.r_", "np.c_"):
+        v = ev.ev(node.slice)
+        if isinstance(v, tuple) and not any(isinstance(x, DictValue) or X.str_of(x) is not None for x in _flat(v) if not is_unknown(x)):
+            return _flat(v)
+    return NotImplemented
+
+
 def _coef_hook(node, ev):
-    """np.zeros(3) / np.ones(3) in a coefficient function: a vector of that many zeros / ones"""
+    """np.zeros(3) / np.ones(3) in a coefficient function: a vector of that many zeros / ones (np.empty(3): of elements without a value);
+    np.hstack / np.concatenate / np.stack of scalars and vectors: the vector of the elements"""
     d = dotted(node.func) or ""
+    if d.split(".")[-1] in ("hstack", "concatenate", "stack", "append") and d.startswith(("np.", "numpy.")) and node.args and not node.keywords:
+        v = ev.ev(node.args[0]) if len(node.args) == 1 else tuple(ev.ev(a) for a in node.args)
+        if isinstance(v, tuple):
+            return _flat(v)
+    if d in ("np.empty", "numpy.empty") and node.args:
+        n = ev.ev(node.args[0])
+        if isinstance(n, tuple) and len(n) == 1:
+            n = n[0]
+        if not is_unknown(n) and not isinstance(n, (tuple, DictValue)) and n.is_const() and n.const_value().denominator == 1 and 1 <= n.const_value() <= 8:
+            return tuple(X.Unknown("an element of np.empty(..) that nothing was stored into") for _ in range(int(n.const_value())))
     if d in ("np.zeros", "numpy.zeros", "np.ones", "numpy.ones", "np.zeros_like", "np.ones_like") and node.args:
         n = ev.ev(node.args[0])
         one = F.const(1 if "ones" in d else 0)
@@ -112,9 +143,32 @@ def _vector(S_, v, what):
         if isinstance(init, tuple):
             got = dict(enumerate(init))
         for _nm, ix, val, _st in S_.cells(n):
-            if is_unknown(ix) or not need(ix).is_const() or need(ix).const_value().denominator != 1:
+            if is_unknown(ix):
                 raise Unsupported(f"{what}: element store with a non-constant index")
-            got[int(need(ix).const_value())] = val
+            u = unfn(need(ix))
+            if u and u[0] == "slice" and len(u[1]) == 3 and got and sorted(got) == list(range(len(got))):
+                # X[1:] = (c1, c2) / X[:] = c on a vector of known length
+                try:
+                    lo, hi, stp = (None if sym_of(z) == "None" else int(z.const_value()) for z in u[1])
+                except Exception:  # noqa
+                    raise Unsupported(f"{what}: slice store with non-constant bounds")
+                where = list(range(len(got)))[slice(lo, hi, stp)]
+                vals = list(val) if isinstance(val, tuple) else [val] * len(where)
+                if len(vals) != len(where):
+                    raise Unsupported(f"{what}: slice store of {len(vals)} values into {len(where)} elements")
+                for k, x in zip(where, vals):
+                    got[k] = x
+                continue
+            if sym_of(need(ix)) == "Ellipsis" and got:
+                vals = list(val) if isinstance(val, tuple) else [val] * len(got)
+                if len(vals) != len(got):
+                    raise Unsupported(f"{what}: store of {len(vals)} values into {len(got)} elements")
+                got = dict(enumerate(vals))
+                continue
+            if not need(ix).is_const() or need(ix).const_value().denominator != 1:
+                raise Unsupported(f"{what}: element store with a non-constant index")
+            k = int(need(ix).const_value())
+            got[k if k >= 0 or not got else len(got) + k] = val
         if got and sorted(got) == list(range(len(got))):
             return tuple(got[k] for k in range(len(got)))
     raise Unsupported(f"{what}: return value is not (b, a) arrays")
@@ -145,7 +199,7 @@ def _extract_filter(ctx, stype, zero):
     # the seeds are not Python identifiers: a free name of the source (an unbound `zeta`, say) can never be mistaken for one of them
     zeta = F.sym("<zeta>")
     env = {params[0]: 1 / (2 * zeta), params[1]: F.sym("<dT>"), params[2]: F.const(0) if zero else F.sym("<wn>")}
-    S_ = Sem3(ctx, fn, SRS, cond=None if zero else _wn_general, env=env, hooks=(_coef_hook,))
+    S_ = Sem3(ctx, fn, SRS, cond=None if zero else _wn_general, env=env, hooks=(_coef_hook,), sub_hooks=(_coef_sub,))
     if not S_.ev.returns:
         raise AnchorError(f"{stype}: no return")
     ret = S_.ret()
@@ -303,11 +357,16 @@ def _lfilter_hook(records, ctx=None):
         got.update({k: v for k, v in kw.items() if k in names})
         extra = [k for k in kw if k not in names]
         x = got.get("x")
+        # the same call on the same values (an expression the evaluator visits again: `lfilter(...)[S:]` under a subscript hook) is the same filter output
+        key = (id(node), ev.chain, repr([got.get(k) for k in names]), repr(sorted(extra)))
+        for r in records:
+            if r.get("key") == key:
+                return r["sym"]
         if x is None or is_unknown(x) or isinstance(x, (tuple, DictValue)):
             s = F.sym("<lfilter%d>" % len(records))
         else:
             s = F.fn("lfilt", F.const(len(records)), need(x))       # the filtered signal: as many rows as x
-        records.append({"sym": s, "b": got.get("b"), "a": got.get("a"), "x": got.get("x"), "axis": got.get("axis"), "node": node, "extra": extra})
+        records.append({"sym": s, "b": got.get("b"), "a": got.get("a"), "x": got.get("x"), "axis": got.get("axis"), "node": node, "extra": extra, "key": key})
         return s
     return hook
 
@@ -441,6 +500,10 @@ def _check(ctx, ok, text, where, detail=None, values=(), **kw):
         if un:
             ctx.error(text + " - not decided: the value goes through a call the evaluator could not resolve", where, un[:3])
             return False
+        un = X.uninitialised(*values, handles=True)
+        if un:
+            ctx.error(text + " - not decided: the contents of a freshly allocated array are read where the stores that fill it were not followed", where, un[:3])
+            return False
     return ctx.check(ok, text, where, detail, **kw)
 
 
@@ -529,6 +592,17 @@ def _parallel_setup(ctx, S_):
     if len(pool) != 1 or not disp:
         raise Unsupported("parallel path: expected one Pool(...) and a map over it")
     wname = sym_of(disp[0][1][0]) if disp[0][1] and not isinstance(disp[0][1][0], (tuple, DictValue)) and not is_unknown(disp[0][1][0]) else None
+    bound = {}
+    ent = S_.ev.lambdas.get(wname) if wname is not None else None
+    if ent is not None and ent[0] == "partial" and sym_of(ent[1]) in m.funcs:
+        # functools.partial(worker, flag=...): the module-level function, with the bound arguments as part of its environment
+        wname = sym_of(ent[1])
+        wf = m.funcs[wname]
+        names = [a.arg for a in wf.args.posonlyargs + wf.args.args]
+        if len(ent[2]) > len(names):
+            raise Unsupported("parallel path: functools.partial binds more arguments than the worker takes")
+        bound = dict(zip(names, ent[2]))
+        bound.update(ent[3])
     if wname is None or wname not in m.funcs:
         raise Unsupported("parallel path: the mapped worker is not a module-level function")
     kws = pool[0][2]
@@ -550,7 +624,7 @@ def _parallel_setup(ctx, S_):
         if u and u[0] == "tuple":
             continue            # an array created in shared memory from its shape: an output buffer
         glob[g] = v
-    return m.funcs[wname], glob
+    return m.funcs[wname], glob, bound
 
 
 def _task_argument(S_):
@@ -664,16 +738,26 @@ def r3_dc_gain(ctx):
         for gr in (True, False):
             try:
                 for S_, _recs in srs_regime(ctx, st=st, ic="steady", time="primary", getresp=gr, parallel="yes"):
-                    wfn, glob = _parallel_setup(ctx, S_)
+                    wfn, glob, bound = _parallel_setup(ctx, S_)
                     recs = []
-                    wp = [a.arg for a in wfn.args.posonlyargs + wfn.args.args]
-                    task = _task_argument(S_) if len(wp) == 1 else None
+                    wa = wfn.args
+                    wp = [a.arg for a in wa.posonlyargs + wa.args if a.arg not in bound]
+                    need_ = [p for p, d in zip(wp, [None] * (len(wp) - len(wa.defaults)) + list(wa.defaults)) if d is None] if len(wa.defaults) <= len(wp) else wp
+                    task = _task_argument(S_) if len(need_) <= 1 and wp else None
+                    env = dict(bound)
+                    for a_, d_ in zip((wa.posonlyargs + wa.args)[::-1], list(wa.defaults)[::-1]):
+                        # a parameter the pool does not supply keeps its (literal) default
+                        if a_.arg not in env and a_.arg != (wp[0] if wp else None) and isinstance(d_, ast.Constant):
+                            v_ = d_.value
+                            env[a_.arg] = {None: NONE, True: TRUE, False: FALSE}[v_] if v_ is None or isinstance(v_, bool) else \
+                                (S(v_) if isinstance(v_, str) else (F.const(v_) if isinstance(v_, int) else F.sym(a_.arg)))
                     if task is not None:
                         # the worker on the argument srs() sends it: the coefficient and peak functions stay symbolic as in srs() itself
                         keep = set(_opaque_helpers(ctx)) | set(STYPES) | {_peak_function(ctx, "abs")}
-                        W = Sem3(ctx, wfn, SRS, cond=_stype_fixed(st), module_state=glob, hooks=(_lfilter_hook(recs, ctx),), exclude=keep, env={wp[0]: task})
+                        env[wp[0]] = task
+                        W = Sem3(ctx, wfn, SRS, cond=_stype_fixed(st), module_state=glob, hooks=(_lfilter_hook(recs, ctx),), exclude=keep, env=env)
                     else:
-                        W = Sem3(ctx, wfn, SRS, cond=_stype_fixed(st), module_state=glob, hooks=(_lfilter_hook(recs, ctx),), exclude=_opaque_helpers(ctx))
+                        W = Sem3(ctx, wfn, SRS, cond=_stype_fixed(st), module_state=glob, hooks=(_lfilter_hook(recs, ctx),), exclude=_opaque_helpers(ctx), env=env)
                     _check_addback(ctx, st, wfn.name, W, recs, wfn)
             except Unsupported as e:
                 ctx.error(f"{st}: add-back in the worker (getresp={gr})", srsfn, str(e))
@@ -860,6 +944,31 @@ def r4_windows(ctx):
             _check(ctx, not bad_sr, f"{tag}: resp['sr'] is the sample rate the coefficients were computed for", fn, bad_sr or None, values=allv)
             if rolloff == "none":
                 serial_rows[time] = rows_set
+    # the same window on the code path that restores the steady-state value (ic='steady' with a response type that has one)
+    for time in TIMES:
+        tag = f"srs (time={time}, ic=steady)"
+        try:
+            bad, allx, n = [], [], 0
+            for S_, recs in srs_regime(ctx, st="absacce", ic="steady", time=time, getresp=True):
+                f = _facts(ctx, S_, recs)
+                n += 1
+                allx.append(f["x"])
+                want = rows_of(f["prim"]) if time == "residual" else F.const(0)
+                if not any(k == "peak" for k, _s, _n in f["starts"]):
+                    bad.append("no peak taken from the filter output")
+                if not any(k == "hist" for k, _s, _n in f["starts"]):
+                    bad.append("no history taken from the filter output")
+                for kind, start, stn in f["starts"]:
+                    if not start.equals(want):
+                        bad.append({"use": kind, "line": getattr(stn, "lineno", None), "start": repr(start), "expected": repr(want)})
+            if not n:
+                ctx.error(f"{tag}: no path", fn)
+                continue
+            _check(ctx, not bad, f"{tag}: the peak and the stored history are taken from "
+                   + ("the first row after the input signal" if time == "residual" else "row 0") + " of the filter output with the steady-state value restored", fn, bad or None,
+                   values=allx)
+        except Unsupported as e:
+            ctx.error(f"{tag}: evaluation", fn, str(e))
     # parallel path: the shared history buffer has the rows of the serial one
     for time in TIMES:
         tag = f"srs (time={time}, parallel)"
@@ -949,8 +1058,12 @@ def _psd_hook(records):
         pos = [ev.ev(a) for a in node.args]
         kw = {k.arg: ev.ev(k.value) for k in node.keywords if k.arg is not None}
         grid = pos[1] if len(pos) > 1 else kw.get("freq")
+        key = (id(node), ev.chain, repr(pos), repr(sorted(kw.items(), key=lambda kv: kv[0])))
+        for r in records:
+            if r.get("key") == key:
+                return r["sym"]
         s = F.sym("<PSD%d>" % len(records))
-        records.append({"sym": s, "grid": grid, "node": node})
+        records.append({"sym": s, "grid": grid, "node": node, "key": key})
         return s
     return hook
 
@@ -1009,12 +1122,17 @@ def r6_vrs(ctx):
                 if zname is None and not is_unknown(ret[0]) and not isinstance(ret[0], (tuple, DictValue)):
                     zname = sym_of(need(ret[0]) * need(ret[0]))         # sqrt of an array of sums, taken after the loop
                     squared = zname is not None
-                cells = S_.cells(zname) if zname else []
+                cells = S_.cells(zname) if (zname and S_.ev.is_array_object(zname)) else []
+                if not cells and not is_unknown(ret[0]) and not isinstance(ret[0], (tuple, DictValue)):
+                    uu = unfn(need(ret[0]) * need(ret[0]))
+                    if uu and uu[0] == "red:sum" and not isinstance(uu[1][0], str):
+                        # all oscillators at once (broadcasting instead of a loop): the value itself, the oscillator frequency being the generic element of Fn
+                        cells, squared = [(None, None, ret[0], S_.ret_node())], False
                 if not cells:
                     ctx.error(f"{tag}: the returned spectrum is not an array filled in the function", S_.ret_node(), repr(ret[0])[:200])
                     continue
                 for _nm, ix, val, stn in cells:
-                    if is_unknown(val) or is_unknown(ix) or isinstance(val, (tuple, DictValue)):
+                    if is_unknown(val) or (ix is not None and is_unknown(ix)) or isinstance(val, (tuple, DictValue)):
                         ctx.error(f"{tag}: stored spectrum value", stn, repr(val)[:300])
                         continue
                     u = unfn(need(val) if squared else need(val) * need(val))
@@ -1022,8 +1140,8 @@ def r6_vrs(ctx):
                         ctx.error(f"{tag}: stored spectrum value is not sqrt(sum(...))", stn, repr(val)[:300])
                         continue
                     integrand = u[1][0]
-                    kname = sym_of(need(ix))
-                    w = integrand / (T2(G, F.fn("idx", FnV, need(ix))) * P)
+                    kname = sym_of(need(ix)) if ix is not None else None
+                    w = integrand / (T2(G, F.fn("idx", FnV, need(ix)) if ix is not None else FnV) * P)
                     ok = not w.is_zero() and _indep(w, "Q") and _indep(w, pname) and (kname is None or _indep(w, kname))
                     ctx.check(ok, f"{tag}: integrand equals |T|^2 * PSD * w with T the base-drive transmissibility "
                                   "(1+(2 zeta p)^2)/((1-p^2)^2+(2 zeta p)^2), p = grid/Fn[k], PSD on the same grid, w independent of Q, of the oscillator and of the PSD", stn,
@@ -1054,12 +1172,14 @@ def r6_vrs(ctx):
                     ctx.check(ok, f"{tag}: resp['f'] is the grid the responses are computed on", S_.ret_node(), None if ok else repr(fv)[:200])
                     pv = ent.get("psd", [None])[-1]
                     bname = sym_of(pv) if pv is not None and not is_unknown(pv) and not isinstance(pv, (tuple, DictValue)) else None
-                    pc = S_.cells(bname) if bname else []
+                    pc = S_.cells(bname) if (bname and S_.ev.is_array_object(bname)) else []
+                    if not pc and pv is not None and not is_unknown(pv) and not isinstance(pv, (tuple, DictValue)) and bname is None:
+                        pc = [(None, None, pv, S_.ret_node())]            # computed for all oscillators at once
                     if not pc:
                         ctx.error(f"{tag}: resp['psd'] is not an array filled in the function", S_.ret_node(), repr(pv)[:200])
                     for _nm, ix, val, stn in pc:
-                        ok = not is_unknown(val) and not is_unknown(ix) and not isinstance(val, (tuple, DictValue)) \
-                            and need(val).equals(T2(G, F.fn("idx", FnV, need(ix))) * P)
+                        ok = not is_unknown(val) and not (ix is not None and is_unknown(ix)) and not isinstance(val, (tuple, DictValue)) \
+                            and need(val).equals(T2(G, F.fn("idx", FnV, need(ix)) if ix is not None else FnV) * P)
                         ctx.check(ok, f"{tag}: resp['psd'][k] is |T(grid / Fn[k])|^2 * PSD", stn, None if ok else repr(val)[:400])
                 # Miles
                 zm = ret[1]
@@ -1250,7 +1370,7 @@ RULES = [
     ("C03-R1", r1_filters, 36),
     ("C03-R2", r2_zero_limits, 12),
     ("C03-R3", r3_dc_gain, 40),
-    ("C03-R4", r4_windows, 110),
+    ("C03-R4", r4_windows, 113),
     ("C03-R6", r6_vrs, 22),
     ("C03-R7", r7_eqsine, 7),
     ("C03-R8", r8_peak_selectors, 7),
